@@ -6,8 +6,9 @@ import ast
 
 from ..core import rule
 from ..dataflow import DefUse
-from ..program import AnalysisError, dotted, src, walk_local
-from .common import handler_catching, where
+from ..program import AnalysisError, dotted, src
+from ..core import walk_local  # inline-aware
+from .common import handler_catching, where, loops_over
 
 MG = "xandikos.davcommon.MultiGetReporter"
 
@@ -79,7 +80,7 @@ def m1(ctx):
     obs.append(ctx.ob(seen[True] and seen[False], fi.qualname, fi.where, "both outcomes answered", "404 and 200 branches present",
                       "MultiGetReporter.report no longer answers both resolved and unresolved hrefs"))
     # the loop iterates what resources_by_hrefs(hrefs) returns, hrefs read from {DAV:}href elements
-    loops = [n for n in cfg.nodes if n.kind == "for" and isinstance(n.ast.iter, ast.Call) and dotted(n.ast.iter.func) == "resources_by_hrefs"]
+    loops = loops_over(cfg, "resources_by_hrefs", exact=True)
     obs.append(ctx.ob(bool(loops), fi.qualname, fi.where, "every requested href is resolved", "for href, resource in resources_by_hrefs(hrefs)",
                       "the report no longer iterates resources_by_hrefs(hrefs)"))
     return obs
